@@ -248,6 +248,36 @@ def random_ttns(ctx, tree, qntot, mmax, gm=None, allow_product=True, complex_pro
     return t
 
 
+def edge_gauge(rng, ttns, cplx=False, lo=0.3, hi=3.0):
+    """Insert G G^-1 on the bond between a random non-root node and its parent (G invertible, block diagonal in the bond
+    labels, moderately conditioned): the represented vector and the labels stay what they were, the state is no longer
+    canonical and the environments of its sub-trees are no longer unit matrices.  Returns the index of the node."""
+    nodes = [nd for nd in ttns.node_list if nd.parent is not None]
+    if not nodes:
+        return None
+    nd = nodes[int(rng.integers(0, len(nodes)))]
+    m = int(nd.tensor.shape[-1])
+    qn = np.asarray(nd.qn).reshape(m, -1)
+    G = np.zeros((m, m), dtype=complex if cplx else float)
+    for lab in {tuple(r) for r in qn.tolist()}:
+        idx = [i for i in range(m) if tuple(qn[i].tolist()) == lab]
+        k = len(idx)
+        q, _ = np.linalg.qr(rng.normal(size=(k, k)) + (1j * rng.normal(size=(k, k)) if cplx else 0))
+        q2, _ = np.linalg.qr(rng.normal(size=(k, k)) + (1j * rng.normal(size=(k, k)) if cplx else 0))
+        sv = np.exp(rng.uniform(np.log(lo), np.log(hi), size=k))
+        G[np.ix_(idx, idx)] = (q * sv) @ q2
+    Ginv = np.linalg.inv(G)
+    par = nd.parent
+    ax = [c is nd for c in par.children].index(True)
+    if cplx:
+        for x in ttns.node_list:
+            x.tensor = np.asarray(x.tensor, dtype=complex)
+    nd.tensor = np.tensordot(nd.tensor, G, axes=([nd.tensor.ndim - 1], [0]))
+    pt = np.tensordot(Ginv, par.tensor, axes=([1], [ax]))          # new axis 0 = the child bond
+    par.tensor = np.moveaxis(pt, 0, ax)
+    return ttns.node_list.index(nd)
+
+
 def ttno_for(tree, terms, algo="Hopcroft-Karp"):
     """TTNO of the term list on the tree (real operators only: the constructor asserts
     'complex operator not supported yet' otherwise)."""
